@@ -158,7 +158,7 @@ def main():
     cfg = gen_config()
     res = Result(PID)
     T = tier()
-    H, N = (3, 7) if T == "quick" else (4, 9)
+    H, N = (3, 7) if T == "quick" else (4, 10)
     inst = []
     avl = [s for h in range(0, H + 1) for s in trees.avl_shapes(h)]
     rbt = trees.rb_trees_upto(N)
